@@ -58,6 +58,11 @@ type discoverCtx struct {
 	writes map[string]bool
 	all    bool
 	freshBase int // number of allocations made before the discovery started
+	// row-precise write sets: for regions only ever updated by store(region, base, _), the base
+	// references written; whole[key] is set when some other kind of update was seen
+	bases   map[string]map[int]*Term
+	whole   map[string]bool
+	startID int // term counter when the discovery started: older terms are loop-invariant
 }
 
 // State is one symbolic path state.
@@ -200,10 +205,47 @@ func (st *State) region(key string, s *Sort) *Term {
 }
 
 func (st *State) setRegion(key string, t *Term) {
-	st.heap[key] = t
 	if st.disc != nil {
 		st.disc.writes[key] = true
+		prev := st.region(key, t.sort)
+		rowWrite := false
+		if t.op == "store" {
+			if t.args[0] == prev || (prev.op == "store" && prev.args[1] == t.args[1] && prev.args[0] == t.args[0]) {
+				rowWrite = true
+			}
+		}
+		if t == prev {
+			rowWrite = true // no change
+		} else if rowWrite {
+			if st.disc.bases[key] == nil {
+				st.disc.bases[key] = map[int]*Term{}
+			}
+			st.disc.bases[key][t.args[1].id] = t.args[1]
+		} else {
+			st.disc.whole[key] = true
+		}
 	}
+	st.heap[key] = t
+}
+
+// olderThan reports whether every variable of t was created before the term counter reached id.
+func olderThan(t *Term, id int, memo map[int]bool) bool {
+	if v, ok := memo[t.id]; ok {
+		return v
+	}
+	r := true
+	if t.op == "var" {
+		r = t.id < id
+	} else {
+		for _, a := range t.args {
+			if !olderThan(a, id, memo) {
+				r = false
+				break
+			}
+		}
+	}
+	memo[t.id] = r
+	return r
 }
 
 type locInfo struct {
